@@ -1,6 +1,7 @@
 package check
 
 import (
+	"go/constant"
 	"fmt"
 	"go/token"
 	"go/types"
@@ -626,11 +627,63 @@ func nanPathReaches(fn *ssa.Function, loads []*ssa.UnOp, target *ssa.BasicBlock)
 		return false
 	}
 	type state struct {
-		b    *ssa.BasicBlock
-		eval bool
+		b, pred *ssa.BasicBlock
+		eval    bool
+	}
+	// nanValue: the value a boolean has when every ordered comparison of the float state is false (a NaN operand);
+	// a phi of the block the walk stands in takes the edge the walk came over.
+	var nanValue func(v ssa.Value, at, pred *ssa.BasicBlock, depth int) (val, known, usesCmp bool)
+	nanValue = func(v ssa.Value, at, pred *ssa.BasicBlock, depth int) (bool, bool, bool) {
+		if depth > 5 {
+			return false, false, false
+		}
+		switch x := v.(type) {
+		case *ssa.Const:
+			if x.Value != nil && x.Value.Kind() == constant.Bool {
+				return constant.BoolVal(x.Value), true, false
+			}
+		case *ssa.UnOp:
+			if x.Op == token.NOT {
+				val, known, uses := nanValue(x.X, at, pred, depth+1)
+				return !val, known, uses
+			}
+		case *ssa.BinOp:
+			switch x.Op {
+			case token.LSS, token.LEQ, token.GTR, token.GEQ:
+				if isLoad(x.X) || isLoad(x.Y) {
+					return false, true, true
+				}
+			}
+		case *ssa.Phi:
+			if x.Block() == at && pred != nil {
+				for k, pb := range at.Preds {
+					if pb == pred && k < len(x.Edges) {
+						return nanValue(x.Edges[k], pb, nil, depth+1)
+					}
+				}
+				return false, false, false
+			}
+			first, all, uses := false, true, false
+			for k, e := range x.Edges {
+				val, known, u := nanValue(e, x.Block(), nil, depth+1)
+				if !known {
+					return false, false, false
+				}
+				if k == 0 {
+					first = val
+				} else if val != first {
+					all = false
+				}
+				uses = uses || u
+			}
+			if all && len(x.Edges) > 0 {
+				return first, true, uses
+			}
+		}
+		return false, false, false
 	}
 	seen := map[state]bool{}
-	stack := []state{{fn.Blocks[0], false}}
+	stack := []state{{fn.Blocks[0], nil, false}}
 	for len(stack) > 0 {
 		cur := stack[len(stack)-1]
 		stack = stack[:len(stack)-1]
@@ -642,11 +695,24 @@ func nanPathReaches(fn *ssa.Function, loads []*ssa.UnOp, target *ssa.BasicBlock)
 			return true
 		}
 		if cmpBlock(cur.b) {
-			stack = append(stack, state{cur.b.Succs[1], true})
+			stack = append(stack, state{cur.b.Succs[1], cur.b, true})
 			continue
 		}
+		// a test of a boolean that was computed from such comparisons (inRange := s.cur < s.stop … if !inRange)
+		if len(cur.b.Instrs) > 0 {
+			if ifi, ok := cur.b.Instrs[len(cur.b.Instrs)-1].(*ssa.If); ok {
+				if val, known, uses := nanValue(ifi.Cond, cur.b, cur.pred, 0); known {
+					next := 1
+					if val {
+						next = 0
+					}
+					stack = append(stack, state{cur.b.Succs[next], cur.b, cur.eval || uses})
+					continue
+				}
+			}
+		}
 		for _, s := range cur.b.Succs {
-			stack = append(stack, state{s, cur.eval})
+			stack = append(stack, state{s, cur.b, cur.eval})
 		}
 	}
 	return false
